@@ -33,6 +33,34 @@ func C14_PruneReopen() {
 	}
 }
 
+var _ = vReg("C14_Overwrite", C14_Overwrite)
+
+// C14_Overwrite: after a rollback to an earlier version every interface agrees on the shortened range:
+// in the same process, after a restart straight afterwards, and after the next commit.
+func C14_Overwrite() {
+	cfg, maxV, maxW := c04cfg("C14_Overwrite")
+	cfg.thresh = []int{0}
+	cfg.caches = []int{10000}
+	cfg.auditOld = false
+	h := vStartHist(cfg)
+	h.vBuildVersions(maxV, maxW)
+	if h.latest < 2 {
+		vStop()
+	}
+	target := h.first + int64(vChoice("target", int(h.latest-h.first)))
+	h.doOverwrite(target, "c14")
+	h.checkVersions("after-overwrite")
+	if vChoice("commit-first", 2) == 1 {
+		h.doSet(vChoice("key", h.p.n))
+		h.doCommit()
+		h.checkVersions("after-overwrite-commit")
+	}
+	h.doReopen()
+	h.checkVersions("after-overwrite-reopen")
+	vAuditReads(h.tree, h.p, h.work, "after-overwrite-reopen")
+	vCover("rolled-back")
+}
+
 // checkProofs: for every retained version, the proof of one chosen pool key verifies against
 // that version's reference root hash.
 func (h *vHist) checkProofs(tag string) {
